@@ -4,7 +4,7 @@ import DarkluaModel.Shared.VisitorSound.Heap.HDrop
 
 `HR cx D a b D'` — `b` is obtained from `a` by replacing nodes, hereditarily (also inside function
 bodies), using
-* exact steps (`EqE` … `EqB`, followed by further rewriting), and
+* exact steps (`LeE cx.upto` … : exact equality, or — when `cx.upto` — the original times out), and
 * *generic leaves* `gen…`: any pair of nodes that is sound for the heap relation, for EVERY
   closure-body relation `Q` reflexive on `NoRef` syntax (`QRefl`) — this is how steps that change the
   allocation pattern (dropping / adding / permuting local declarations …) enter; see `HSteps.lean`.
@@ -16,11 +16,11 @@ namespace DarkluaModel.Sem.Heap
 
 inductive HR (cx : Cx) : List DName → Node → Node → List DName → Prop
   -- exact steps
-  | stepE {D a m b} : EqE a m → HR cx D (.e m) (.e b) D → HR cx D (.e a) (.e b) D
-  | stepT {D a m b} : EqT a m → HR cx D (.t m) (.t b) D → HR cx D (.t a) (.t b) D
-  | stepS {D a m b} : EqS a m → HR cx D (.s m) (.s b) D → HR cx D (.s a) (.s b) D
-  | stepL {D a m b} : EqL a m → HR cx D (.l m) (.l b) D → HR cx D (.l a) (.l b) D
-  | stepB {D a m b D'} : EqB a m → HR cx D (.b m) (.b b) D' → HR cx D (.b a) (.b b) D'
+  | stepE {D a m b} : LeE cx.upto a m → HR cx D (.e m) (.e b) D → HR cx D (.e a) (.e b) D
+  | stepT {D a m b} : LeT cx.upto a m → HR cx D (.t m) (.t b) D → HR cx D (.t a) (.t b) D
+  | stepS {D a m b} : LeS cx.upto a m → HR cx D (.s m) (.s b) D → HR cx D (.s a) (.s b) D
+  | stepL {D a m b} : LeL cx.upto a m → HR cx D (.l m) (.l b) D → HR cx D (.l a) (.l b) D
+  | stepB {D a m b D'} : LeB cx.upto a m → HR cx D (.b m) (.b b) D' → HR cx D (.b a) (.b b) D'
   -- generic sound leaves
   | genE {D a b} : (∀ Q, QRefl cx Q → SoundE Q cx D a b) → HR cx D (.e a) (.e b) D
   | genT {D a b} : (∀ Q, QRefl cx Q → SoundT Q cx D a b) → HR cx D (.t a) (.t b) D
